@@ -1,6 +1,7 @@
 import M3d.Basic
 import M3d.Model.Collide
 import M3d.Model.CollideXf
+import M3d.Model.CollideCone
 /-!
 Line-protocol handler for C07.  Core-only; runs the models of `M3d/Model/Collide.lean`
 * at `Rat` for the `…x` kinds (exact mode: dyadic inputs on which every Go float operation is exact),
@@ -19,7 +20,7 @@ Kinds (see notes/C07.md):
   circx  s0 s1 ctr r                  2-D Segment.CircleCollision = squared distance < r²   (Rat, spec)
   segx   a b c s0 s1                  Triangle.SegmentCollision                             (Rat)
   sphereb c r o d | trib a b c o d | seg2b s0 s1 o d | rectb lo hi o d | planeb n bias o d |
-  circleb n c r o d | cylb p1 p2 r o d | capb p1 p2 r o d                                  (Float bits)
+  circleb n c r o d | cylb p1 p2 r o d | capb p1 p2 r o d | coneb tip base r o d           (Float bits)
   tballx  xf3 n (a b c)… ctr r        TransformCollider(t, triangles).SphereCollision = the IMAGE triangles
                                       are within r of ctr                                   (Rat, spec)
   tsphx   xf3 center R ctr r          TransformCollider(t, Sphere).SphereCollision = the image sphere meets
@@ -27,6 +28,7 @@ Kinds (see notes/C07.md):
   tcircx  xf2 n (s0 s1)… ctr r        2-D TransformCollider(t, segments).CircleCollision    (Rat, spec)
   tcirc2x xf2 center R ctr r          2-D TransformCollider(t, Circle).CircleCollision      (Rat, spec)
   (xf: T x y [z] | S s | O m… | J n xf…, the token syntax of C05)
+  containx n (a b c)… o margin        ColliderContains(mesh collider, o, margin) + the parity of the count (Rat)
 -/
 namespace M3d.Drv.C07
 open M3d M3d.Col
@@ -52,6 +54,8 @@ def sqrtQ (q : Q) : Q :=
 def epsQ : Q := (1 : Q) / 100000000
 /-- the double nearest to 1e-8 (Go's constant `1e-8`) -/
 def epsF : Float := Float.ofBits 0x3e45798ee2308c3a
+/-- the double nearest to 1e-5 (`safeNormal`) -/
+def tolF : Float := Float.ofBits 0x3ee4f8b588e368f1
 
 /-! ### parsing -/
 
@@ -186,6 +190,15 @@ def hCyl (sq : σ → σ) (eps : σ) (rd : String → Option σ) (sh : σ → St
   let (d, ws) ← pV3 rd ws
   if !ws.isEmpty then none
   some (showRun (showHit sh) (cylCollider sq eps p1 p2 r) (o, d))
+
+def hCone (sq : σ → σ) (eps tol : σ) (rd : String → Option σ) (sh : σ → String) (ws : List String) : Option String := do
+  let (tip, ws) ← pV3 rd ws
+  let (base, ws) ← pV3 rd ws
+  let (r, ws) ← pScalar rd ws
+  let (o, ws) ← pV3 rd ws
+  let (d, ws) ← pV3 rd ws
+  if !ws.isEmpty then none
+  some (showRun (showHit sh) (coneCollider sq eps tol tip base r) (o, d))
 
 def hCap (sq : σ → σ) (rd : String → Option σ) (sh : σ → String) (ws : List String) : Option String := do
   let (p1, ws) ← pV3 rd ws
@@ -421,6 +434,24 @@ def hTCirc2 (ws : List String) : Option String := do
   let model := tCircle t (circleBall sqrtQ center bigR) ctr r
   some (verdict spec model)
 
+/-- the fixed direction of `model3d.ColliderContains` -/
+def containsDir3 : V3 Q :=
+  ⟨(ratOfBits 0x3fe0b83b6b5b6586).getD 0, (ratOfBits 0x3fbadda91d7b7320).getD 0, (ratOfBits 0x3fdbe0b24c2fbce8).getD 0⟩
+
+/-- `ColliderContains(mesh collider, o, margin)`: even-odd containment over the brute-force joined collider
+(count = sum over the triangles) and the soup's ball query -/
+def hContain (ws : List String) : Option String := do
+  let (n, ws) ← pNat ws
+  let (tris, ws) ← pTris n ws
+  let (o, ws) ← pV3 parseRat ws
+  let (margin, ws) ← pScalar parseRat ws
+  if !ws.isEmpty then none
+  let parts := tris.map fun (a, b, c) => triCollider sqrtQ epsQ a b c
+  let j : Collider (V3 Q × V3 Q) (Hit Q) := joined Hit.t (fun _ => true) parts
+  let sphere : V3 Q → Q → Bool := fun q rho => tris.any fun (a, b, c) => triSphere sqrtQ epsQ a b c q rho
+  let cnt := (j.ray (o, containsDir3) false).1
+  some s!"{boolStr (colliderContains j.ray sphere containsDir3 o margin)} {cnt % 2}"
+
 def handleAll (ws : List String) : Option String :=
   match ws with
   | "obs3" :: rest => handleObs rest
@@ -433,6 +464,7 @@ def handleAll (ws : List String) : Option String :=
   | "ballx" :: rest => hBall rest
   | "circx" :: rest => hCirc rest
   | "segx" :: rest => hSegx rest
+  | "containx" :: rest => hContain rest
   | "tballx" :: rest => hTBall rest
   | "tsphx" :: rest => hTSph rest
   | "tcircx" :: rest => hTCirc rest
@@ -445,6 +477,7 @@ def handleAll (ws : List String) : Option String :=
   | "circleb" :: rest => hCircle Float.sqrt epsF floatOfHex hexOfFloat rest
   | "cylb" :: rest => hCyl Float.sqrt epsF floatOfHex hexOfFloat rest
   | "capb" :: rest => hCap Float.sqrt floatOfHex hexOfFloat rest
+  | "coneb" :: rest => hCone Float.sqrt epsF tolF floatOfHex hexOfFloat rest
   | _ => none
 
 end M3d.Drv.C07
